@@ -20,6 +20,7 @@ from ..common import rmtree, scratch, seed
 
 WIRE = {"str": "tok", "int": "7", "float": "1.5", "bool": "true", "enum": "a", "date": "2020-01-02", "uuid": "12345678-1234-5678-1234-567812345678"}
 BODY_EXPECT = {
+    "json;param": ("json", "application/vnd.acme+json; version=2", {"v": 1, "name": "n"}),
     "json": ("json", "application/json", {"v": 1, "name": "n"}), "vnd+json": ("json", "application/vnd.api+json", {"v": 1, "name": "n"}),
     "json|form:json": ("json", "application/json", {"v": 1, "name": "n"}), "jsonarr": ("json", "application/json", [{"v": 1, "name": "n"}, {"v": 2, "name": "m"}]),
     "form": ("form", "application/x-www-form-urlencoded", [["a", "x"], ["b", "2"]]), "json|form:form": ("form", "application/x-www-form-urlencoded", [["a", "x"], ["b", "2"]]),
@@ -82,7 +83,7 @@ def judge_request(rep, op, args, obs, idx, tag, method="POST", reverse=False, vi
     else:
         kind, ctype, val = BODY_EXPECT[op["body"]]
         b = r["body"]
-        if b["kind"] != kind or not b["ctype"].startswith(ctype):
+        if b["kind"] != kind or (not b["ctype"].startswith(ctype) if kind == "multipart" else b["ctype"] != ctype):
             probs.append(("content-type", f"body sent as {b['kind']} with Content-Type {b['ctype']!r}, declared {ctype}"))
         elif kind == "multipart":
             names = sorted(x[0] for x in b["value"])
@@ -124,7 +125,7 @@ def run(rep) -> None:
                 rep.notes.append(f"TLC(Endpoint): {sorted(set(r.violated))}: {r.counterexample[:300]}")
             cases += r.printed
         if quick:       # add a sample of two-parameter operations
-            for r in endpoint.enumerate_universe("request", 2, d, parts=9):
+            for r in endpoint.enumerate_universe("request", 2, d, parts=10):
                 rep.tlc(r)
                 two = [c for c in r.printed if len(c["op"]["ps"]) == 2]
                 cases += rnd.sample(two, min(len(two), 260))
